@@ -301,6 +301,10 @@ impl<T: Ord> PairingHeap<T> {
     }
 }
 
+#[cfg(kani)]
+#[path = "/verif/kani/heap.rs"]
+mod kani_verif;
+
 #[cfg(all(test, feature = "std"))]
 mod tests {
     use super::{HeapNode, PairingHeap};
